@@ -3,7 +3,7 @@
 (declare-fun utcoffset!3 () Int)
 (declare-fun fields!1 () Int)
 (assert
- (let ((?x28 (- fields!1 utcoffset!3)))
-(let (($x29 (= ?x28 ?x28)))
-(not $x29))))
+ (let ((?x30 (- fields!1 utcoffset!3)))
+(let (($x31 (= ?x30 ?x30)))
+(not $x31))))
 (check-sat)
